@@ -5,12 +5,15 @@ import ZvbiModel.Codec.Spec
 namespace Zvbi.Driver.Codec
 open Zvbi.Driver Zvbi.Hamm Zvbi.Codec
 
-def showPid (p : Pid) : String :=
-  s!"ok pid {p.channel} {p.cniType} {p.cni} {p.pil} {p.luf} {p.mi} {p.prf} {p.pcsAudio} {p.pty}"
+def showPid0 (p : Pid) : String :=
+  s!"pid {p.channel} {p.cniType} {p.cni} {p.pil} {p.luf} {p.mi} {p.prf} {p.pcsAudio} {p.pty}"
 
-def optBuf : Option Buf → String
-  | some b => s!"ok {toHex b}"
-  | none => "ok false"
+/-- same rendering as the harness: a refusal that changed the buffer is made visible -/
+def showPid (p : Pid) : String := "ok " ++ showPid0 p
+
+def optBuf (orig : Buf) : Bool × Buf → String
+  | (true, b) => s!"ok {toHex b}"
+  | (false, b) => if b == orig then "ok false" else "ok false-but-modified"
 
 def hexN (s : String) (n : Nat) : Option (List Nat) :=
   match parseHex s with
@@ -18,6 +21,12 @@ def hexN (s : String) (n : Nat) : Option (List Nat) :=
   | none => none
 
 def mkPid (cni pil pcs pty : Nat) : Pid := { cni := cni, pil := pil, pcsAudio := pcs, pty := pty }
+
+/-- ops of this component: a known op with the wrong number of arguments is `rej parse` -/
+def knownOps : List String :=
+  ["rev8", "rev16", "ham8", "unham8", "par8", "unpar8", "unham16p", "unham24p", "ham24p", "unpar",
+   "vps_dec_cni", "vps_dec_pdc", "dvb_dec", "vps_enc_cni", "vps_enc_pdc", "dvb_enc", "vps_rt_cni", "vps_rt_pdc",
+   "dvb_rt", "vps_reenc", "p8301_cni", "p8301_time", "p8302_cni", "p8302_pdc"]
 
 def step (_ : Unit) (ws : List String) : Unit × String :=
   let r : String :=
@@ -51,14 +60,39 @@ def step (_ : Unit) (ws : List String) : Unit × String :=
       | some b => (match decodeDvbPdc b with | some p => showPid p | none => "ok false")
       | none => "rej parse"
     | ["vps_enc_cni", h, c] => match hexN h 13, parseNat c with
-      | some b, some c => optBuf (encodeVpsCni b (c % 4294967296)) | _, _ => "rej parse"
+      | some b, some c => optBuf b (encodeVpsCni b (c % 4294967296)) | _, _ => "rej parse"
     | ["vps_enc_pdc", h, c, pil, pcs, pty] =>
       match hexN h 13, parseNat c, parseNat pil, parseNat pcs, parseNat pty with
       | some b, some c, some pil, some pcs, some pty =>
-        optBuf (encodeVpsPdc b (mkPid (c % 4294967296) (pil % 4294967296) (pcs % 4294967296) (pty % 4294967296)))
+        optBuf b (encodeVpsPdc b (mkPid (c % 4294967296) (pil % 4294967296) (pcs % 4294967296) (pty % 4294967296)))
       | _, _, _, _, _ => "rej parse"
     | ["dvb_enc", h, pil] => match hexN h 5, parseNat pil with
-      | some b, some pil => optBuf (encodeDvbPdc b (mkPid 0 (pil % 4294967296) 0 0)) | _, _ => "rej parse"
+      | some b, some pil => optBuf b (encodeDvbPdc b (mkPid 0 (pil % 4294967296) 0 0)) | _, _ => "rej parse"
+    -- round trips in one op: encode, then decode the buffer the encoder produced
+    | ["vps_rt_cni", h, c] => match hexN h 13, parseNat c with
+      | some b, some c =>
+        (match encodeVpsCni b (c % 4294967296) with
+         | (true, b') => s!"ok {toHex b'} {decodeVpsCni b'}"
+         | r => optBuf b r)
+      | _, _ => "rej parse"
+    | ["vps_rt_pdc", h, c, pil, pcs, pty] =>
+      match hexN h 13, parseNat c, parseNat pil, parseNat pcs, parseNat pty with
+      | some b, some c, some pil, some pcs, some pty =>
+        (match encodeVpsPdc b (mkPid (c % 4294967296) (pil % 4294967296) (pcs % 4294967296) (pty % 4294967296)) with
+         | (true, b') => s!"ok {toHex b'} {showPid0 (decodeVpsPdc b')}"
+         | r => optBuf b r)
+      | _, _, _, _, _ => "rej parse"
+    | ["dvb_rt", h, pil] => match hexN h 5, parseNat pil with
+      | some b, some pil =>
+        (match encodeDvbPdc b (mkPid 0 (pil % 4294967296) 0 0) with
+         | (true, b') => (match decodeDvbPdc b' with
+            | some p => s!"ok {toHex b'} {showPid0 p}"
+            | none => optBuf b (false, b'))
+         | r => optBuf b r)
+      | _, _ => "rej parse"
+    | ["vps_reenc", h, t] => match hexN h 13, hexN t 13 with
+      | some b, some t => optBuf t (encodeVpsPdc t (decodeVpsPdc b))
+      | _, _ => "rej parse"
     | ["p8301_cni", h] => match hexN h 42 with
       | some b => s!"ok {decode8301Cni b}" | none => "rej parse"
     | ["p8301_time", h] => match hexN h 42 with
@@ -82,7 +116,8 @@ def step (_ : Unit) (ws : List String) : Unit × String :=
       | some f, some lci, some luf, some prf, some pcs, some mi, some cni, some pil, some pty =>
         s!"ok {toHex (Spec.enc8302 (fun i => f.getD i 0) ⟨lci, luf, prf, pcs, mi, cni, pil, pty⟩)}"
       | _, _, _, _, _, _, _, _, _ => "rej parse"
-    | _ => "rej op"
+    | w :: _ => if knownOps.contains w then "rej parse" else "rej op"
+    | [] => "rej op"
   ((), r)
 
 def main : IO Unit := runLoop () step
